@@ -555,3 +555,145 @@ class SubstreamsInfoRead(Contract):
             "archiveinfo:SubstreamsInfo._read#loop4": LoopSpec("for-j-digests", inv_l4, target="j in range(numsubstreams)", unfold_step=step_l4, ghost_step=gstep_l4, ghosts=["srcRD", "foRD"]),
             "archiveinfo:SubstreamsInfo._read#loop5": LoopSpec("for-i-no-crc-record", inv_l5, target="i in range(numfolders)", unfold_init=init_l5),
         }
+
+
+# ===================================================================================== FilesInfo._read_times / _read_attributes
+def _files(c, self_):
+    return self_.files if conc(c) else c.raw(self_, "files")
+
+
+class _VecReader(Contract):
+    """shared shape of _read_times (8-byte values) and _read_attributes (4-byte values): member k gets the value stored
+    for it when its defined flag is set - the values of the DEFINED members follow each other in member order - and
+    None otherwise; the stream ends up behind the last stored value"""
+
+    width = 8
+    props = ("C06", "C17", "C08", "C02")
+
+    def raises(self):
+        return [RaiseSpec("TypeError"), RaiseSpec("struct.error"), RaiseSpec("AssertionError")]
+
+    def _post(self, c, old, file, self_, field, dd, vstart):
+        rl = c.rl(_files(c, self_))
+        n = rl.n
+        d = old.data(file)
+        W = self.width
+        le = SP.uint64_le if W == 8 else SP.uint32_le
+        r = lambda k: rank(c, "vr" + field, dd, k)
+        return [
+            ("defined-members-get-their-stored-value", ForAll(lambda k: And(rl.defined(field, k), rl.val(field, k) == le(d, vstart + W * r(k))), guard=lambda k: And(k >= 0, k < n, nth(dd, k)), over=dd)),
+            ("undefined-members-get-none", ForAll(lambda k: And(rl.has(field, k), Not(rl.defined(field, k))), guard=lambda k: And(k >= 0, k < n, Not(nth(dd, k))), over=dd)),
+            ("consumed", c.pos(file) == vstart + W * r(n)),
+            ("frame-data", eq(c.data(file), d)),
+        ]
+
+    def _inv(self, c, Lp, file, field, dd, vstart):
+        rl = c.rl(_files(c, c.bound["self_"]))
+        d = c.old.data(file)
+        W = self.width
+        le = SP.uint64_le if W == 8 else SP.uint32_le
+        i = Lp.i
+        r = lambda k: rank(c, "vr" + field, dd, k)
+        return [
+            ("position", And(c.pos(file) == vstart + W * r(i), r(i) >= 0, r(i) <= i)),
+            ("defined-so-far", ForAll(lambda k: And(rl.defined(field, k), rl.val(field, k) == le(d, vstart + W * r(k)), r(k) >= 0), guard=lambda k: And(k >= 0, k < i, nth(dd, k)), over=dd)),
+            ("undefined-so-far", ForAll(lambda k: And(rl.has(field, k), Not(rl.defined(field, k))), guard=lambda k: And(k >= 0, k < i, Not(nth(dd, k))), over=dd)),
+            ("frame-data", eq(c.data(file), d)),
+        ]
+
+
+@contract
+class ReadAttributes(_VecReader):
+    target = AI + "FilesInfo._read_attributes"
+    width = 4
+
+    def setup(self, c):
+        files = c.reclist("files", {"emptystream": {"type": "bool"}, "attributes": {"type": "int", "optional": True, "nullable": True}})
+        self_ = c.obj("FilesInfo", "py7zr.archiveinfo", files=files, emptyfiles=c.bool_list("emptyfiles"), antifiles=None)
+        return {"self_": self_, "buffer": c.instream("buffer"), "defined": c.bool_list("defined")}
+
+    def requires(self, c, self_, buffer, defined):
+        return [("one-flag-per-member", L(c.view(defined)) == c.rl(_files(c, self_)).n)]
+
+    def modifies(self, c, self_, buffer, defined):
+        return [(buffer, "pos"), (_files(c, self_), "cols")]
+
+    def ensures(self, c, old, result, self_, buffer, defined):
+        return self._post(c, old, buffer, self_, "attributes", c.view(defined), old.pos(buffer))
+
+    def loops(self):
+        def inv(c, Lp):
+            b = c.bound
+            return self._inv(c, Lp, b["buffer"], "attributes", c.view(b["defined"]), c.old.pos(b["buffer"]))
+
+        def init(c, Lp):
+            return [rank(c, "vrattributes", c.view(c.bound["defined"]), 0) == 0]
+
+        def step(c, Lp):
+            return [rank_unfold(c, "vrattributes", c.view(c.bound["defined"]), Lp.i)]
+
+        return {"archiveinfo:FilesInfo._read_attributes#loop0": LoopSpec("for-idx-f", inv, target="(idx, f) in enumerate(self.files)", unfold_init=init, unfold_step=step)}
+
+
+@contract
+class ReadTimes(_VecReader):
+    """time property body: BooleanList (with AllAreDefined byte) over ALL members, external = 0, then one 64-bit FILETIME
+    per DEFINED member; members whose flag is clear get None (their time is undefined)"""
+
+    target = AI + "FilesInfo._read_times"
+    width = 8
+    assert_mode = "raise"
+
+    def setup(self, c):
+        files = c.reclist("files", {"emptystream": {"type": "bool"}, "lastwritetime": {"type": "int", "optional": True, "nullable": True}})
+        self_ = c.obj("FilesInfo", "py7zr.archiveinfo", files=files, emptyfiles=c.bool_list("emptyfiles"), antifiles=None)
+        return {"self_": self_, "fp": c.instream("fp"), "name": "lastwritetime"}
+
+    def modifies(self, c, self_, fp, name):
+        return [(fp, "pos"), (_files(c, self_), "cols")]
+
+    def _vec(self, c, old, fp, n):
+        """(defined flags as the format gives them, offset of the first value) for the stream state `old`"""
+        d, p = old.data(fp), old.pos(fp)
+        shortcut = Or(L(d) - p <= 0, nth(d, p) != 0)
+        vstart = ite(shortcut, ite(L(d) - p <= 0, p, p + 1), p + 1 + ceil8(n)) + 1
+        return shortcut, vstart
+
+    def ensures(self, c, old, result, self_, fp, name):
+        rl = c.rl(_files(c, self_))
+        n = rl.n
+        d, p = old.data(fp), old.pos(fp)
+        if conc(c):
+            sc = len(d) - p <= 0 or d[p] != 0
+            dd = [True] * n if sc else [SP.bit(d, p + 1, k) for k in range(n)]
+            vstart = (p + (0 if len(d) - p <= 0 else 1) if sc else p + 1 + (n + 7) // 8) + 1
+        else:
+            dd = c.eng.ghost.get("definedRT")
+            if dd is None:
+                return [("defined-vector-read", False)]
+            sc, vstart = self._vec(c, old, fp, n)
+        out = self._post(c, old, fp, self_, "lastwritetime", dd, vstart)
+        if not conc(c):
+            out += [
+                ("flags-all-set-on-the-shortcut", ForAll(lambda k: nth(dd, k), guard=lambda k: And(sc, k >= 0, k < n), over=dd)),
+                ("flags-are-the-bit-field", ForAll(lambda k: nth(dd, k) == SP.bit(d, p + 1, k), guard=lambda k: And(Not(sc), k >= 0, k < n), over=dd, mod=8)),
+                ("external-flag-is-zero", nth(d, vstart - 1) == 0),
+            ]
+        return out
+
+    def loops(self):
+        def inv(c, Lp):
+            b = c.bound
+            dd = c.eng.ghost["definedRT"]
+            return self._inv(c, Lp, b["fp"], "lastwritetime", dd, c.eng.ghost["vstartRT"])
+
+        def init(c, Lp):
+            dd = Lp.local("defined")
+            c.eng.ghost["definedRT"] = dd
+            c.eng.ghost["vstartRT"] = c.pos(c.bound["fp"])
+            return [rank(c, "vrlastwritetime", dd, 0) == 0]
+
+        def step(c, Lp):
+            return [rank_unfold(c, "vrlastwritetime", c.eng.ghost["definedRT"], Lp.i)]
+
+        return {"archiveinfo:FilesInfo._read_times#loop0": LoopSpec("for-i-f", inv, target="(i, f) in enumerate(self.files)", unfold_init=init, unfold_step=step)}
